@@ -178,7 +178,8 @@ func (c *CrashKV) apply(ops []kvop, batch bool) error {
 			c.Paused = true
 		}
 	}
-	c.mu.Unlock()
+	// the record is written while the lock that orders the writes is still held: records of concurrent
+	// writers appear in the order in which their writes landed
 	if c.tr != nil && !c.Quiet {
 		rec := summarize(c.node, w, ops, batch)
 		rec["incl"] = -1
@@ -187,6 +188,7 @@ func (c *CrashKV) apply(ops []kvop, batch bool) error {
 		}
 		c.tr.Emit("KV", rec)
 	}
+	c.mu.Unlock()
 	if wait != nil {
 		<-wait
 	}
